@@ -3,6 +3,7 @@ from pyvc.api import *
 from specs.base import *
 from specs.transfers import wrank
 from specs.condense import *
+from specs.eqprof import cdist, cb_cdist
 
 
 @contract("pref_profile.py", "PreferenceProfile.condense_ballots", props=("C11", "C12", "C03"), unfold=3)
@@ -42,7 +43,8 @@ class condense_ballots:
                 and implies(rk or all_wf(self.ballots, len(self.ballots)),
                             wcont(result.ballots, len(result.ballots), kb, rk) == wcont(self.ballots, len(self.ballots), kb, rk))
                 and implies(all_wf(self.ballots, len(self.ballots)) and 0 <= a and a < b and b < len(result.ballots),
-                            not cmatch(result.ballots[a], result.ballots[b], False)))
+                            not cmatch(result.ballots[a], result.ballots[b], False))
+                and implies(all_wf(self.ballots, len(self.ballots)), cdist(result.ballots, len(result.ballots))))
 
     def invariant_0(self, weight_accumulator, kb, rk, k, sv, x, C, _k):
         return (len(bd_keys(weight_accumulator)) == len(bd_vals(weight_accumulator)) and len(weight_accumulator) <= _k
@@ -103,6 +105,7 @@ class condense_ballots:
                 and wcont_cb_prefix(bd_keys(weight_accumulator), bd_vals(weight_accumulator), len(weight_accumulator), kb, rk)
                 and wcont_cb_prefix(bd_keys(weight_accumulator), bd_vals(weight_accumulator), len(weight_accumulator), Ballot(ranking=k), True)
                 and cb_distinct(bd_keys(weight_accumulator), bd_vals(weight_accumulator), len(weight_accumulator), a, b)
+                and cb_cdist(bd_keys(weight_accumulator), bd_vals(weight_accumulator), len(weight_accumulator))
                 and wpts_cb_prefix(bd_keys(weight_accumulator), bd_vals(weight_accumulator), len(weight_accumulator), sv, x)
                 and cb_prefix_ok(bd_keys(weight_accumulator), bd_vals(weight_accumulator), len(weight_accumulator), C)
                 and wcont_wrank(self.ballots, len(self.ballots), k)
